@@ -117,3 +117,15 @@ Qed.
 Theorem src_lookup_after_loads : forall ps i,
   Authenticator_get_authkey i (loads_src ps []) = SOk (json_get (fold_left load ps []) i) (fold_left load ps []).
 Proof. intros. rewrite loads_src_eq. apply get_authkey_src_eq, loads_valid. reflexivity. Qed.
+
+(* ---- memory.py / multi.py ------------------------------------------------------------------------------------ *)
+Theorem memory_src_eq : forall creds i, Memory_get_authkey creds i = mem_get creds i.
+Proof.
+  intros creds i. unfold Memory_get_authkey, mem_get, mem_dict_get, cred_copy, cred_set_ident, cred_truthy.
+  destruct (assocb i creds) as [[c|]|]; reflexivity.
+Qed.
+Theorem multi_src_eq : forall stack i, Multi_get_authkey stack i = multi_get stack i.
+Proof.
+  intros stack i. unfold Multi_get_authkey. induction stack as [|m t IH]; [reflexivity|].
+  cbn [for_first multi_get]. unfold cred_truthy at 1. destruct (m i) as [c|]; [reflexivity|exact IH].
+Qed.
